@@ -9,6 +9,7 @@ import operator
 import os
 
 from snakeoil.chksum import get_handler
+from snakeoil.fileutils import AtomicWriteFile
 from snakeoil.mappings import ImmutableDict
 
 from .. import gpg
@@ -129,7 +130,9 @@ class Manifest:
 
         _key_sort = operator.itemgetter(0)
 
-        excludes = frozenset(["CVS", ".svn", "Manifest"])
+        # the temporary file of an interrupted update is not part of the package
+        tmp_name = ".update." + os.path.basename(self.path)
+        excludes = frozenset(["CVS", ".svn", "Manifest", tmp_name])
         aux, ebuild, misc = {}, {}, {}
         if not self.thin:
             filesdir = "/files/"
@@ -185,8 +188,14 @@ class Manifest:
         except OSError:
             pass
 
-        with open(self.path, "w") as handle:
+        # write to a temporary sibling and rename it into place, so that an
+        # interrupted update leaves either the old or the new Manifest
+        handle = AtomicWriteFile(self.path)
+        try:
             handle.write(data)
+            handle.close()
+        finally:
+            handle.discard()
         self._sourced = False
         return True
 
